@@ -130,6 +130,10 @@ class Xunitary(Compiler):
         if A != []:
             raise CircuitError("There can be no operations before the S2gates.")
 
+        # the group may also contain the operations that lie between two S2gates
+        if not all(isinstance(cmd.op, ops.S2gate) for cmd in B):
+            raise CircuitError("There can be no operations between the S2gates.")
+
         regrefs = set()
 
         if B:
